@@ -1,6 +1,7 @@
 import Amgcl.Properties.C02c
 import Amgcl.Proofs.BridgeSkyline
 import Amgcl.Proofs.BridgeMMatrix
+import Amgcl.Proofs.BridgeSA
 /-!
 # C02, part d: the convergence theorem with the model's own coarse solver (skyline LU) plugged in
 
@@ -101,6 +102,31 @@ theorem model_amg_mmatrix_spd_contracting (r : RealSmoother K) (hr : r.NormOK) (
   exact model_amg_skyline_spd_contracting r hr hp norm aprm hbs hma nt prm hnu hs hcy hpc perm hperm A hA hsq hAnd hspd
     ls hb hQ
 
+/-! ## Smoothed aggregation -/
+
+/-- **smoothed aggregation** (the C04 model of `coarsening::smoothed_aggregation`, `block_size = 1`, per-level parameters
+`prmOf` — `eps_strong` is halved from level to level —, fixed or Gershgorin-estimated `omega`): the structural policy
+hypotheses hold (`R = transpose P`, `P` well formed, no column stored twice: `Bridge.policyOK_smoothedAggregation`,
+`Bridge.policyNodup_smoothedAggregation`), so C02's SPD / contraction clause holds for every hierarchy the model
+constructor builds with it — provided every smoothed prolongation of that hierarchy is injective.  Injectivity of
+`(I − ω D_f⁻¹ A_f) P_tent` is a property of the VALUES, not of the construction; it is a hypothesis (`hinj`). -/
+theorem smoothed_aggregation_built_apply_spd_contracting (r : RealSmoother K) (hr : r.NormOK) (hp : r.proved.ParamOK)
+    (norm : K → K) (prmOf : Nat → SAParams K) (hbs : ∀ l, (prmOf l).blockSize = 1)
+    (hma : ∀ l, (prmOf l).minAggregate ≤ 1) (nt : Nat)
+    (prm : Params) (hnu : prm.npre = prm.npost) (hs : 0 < prm.npre) (hcy : 0 < prm.ncycle) (hpc : 0 < prm.pre_cycles)
+    (perm : CRS K → Array Nat) (hperm : ∀ Ad : CRS K, PermOn Ad.nrows (perm Ad))
+    (A : CRS K) (hA : A.WF) (hsq : A.ncols = A.nrows) (hAnd : A.nodupb = true)
+    (hspd : IsSPD (Bridge.matOf A A.nrows A.nrows)) (ls : List (Level K r.State))
+    (hb : build prm (smoothedAggregationPolicy norm prmOf nt) r.model (skylineBuilt perm) A = .ok ls)
+    (hinj : ProlongationsInjective ls) (hQ : LevelMatrices r.proved.Q ls) :
+    ∃ B : Matrix (Fin A.nrows) (Fin A.nrows) K, IsSPD B ∧
+      Contr (Bridge.matOf A A.nrows A.nrows) (1 - B * Bridge.matOf A A.nrows A.nrows) ∧
+      ∀ (scr : List (Scratch K)) (f : Vec K), scr.length = ls.length → f.size = A.nrows →
+        vecOf A.nrows (apply prm r.model (skylineDirect perm) ls scr f).1 = B *ᵥ vecOf A.nrows f :=
+  C02c.built_apply_spd_contracting r hr hp (policyOK_smoothedAggregation norm prmOf hbs hma nt)
+    (policyNodup_smoothedAggregation norm prmOf hbs hma nt) prm hnu hs hcy hpc (skylineBuilt perm) (skylineDirect perm)
+    (fun Ad h1 h2 h3 h4 => skyline_exact_when_built perm hperm Ad h1 h2 h3 h4) A hA hsq hAnd hspd ls hb hinj hQ
+
 /-! ### non-vacuity: 4-point Laplacian, `coarse_enough = 2`: levels `4 → 2`, the `2 × 2` coarse system `[[2,-1],[-1,2]]`
 is factorised by the skyline LU model (identity ordering), W-cycle with 2+2 Gauss–Seidel sweeps -/
 
@@ -155,6 +181,61 @@ example : ∃ ls, build exPrm Ex.pol Ex.smJac.model (skylineBuilt idPerm) Ex.A4c
     obtain ⟨B, h1, h2, -, -⟩ := model_amg_mmatrix_spd_contracting Ex.smJac trivial (by constructor <;> norm_num) _
       Ex.aprm rfl (by decide) 1 exPrm rfl (by decide) (by decide) (by decide) idPerm idPerm_permOn
       Ex.A4c Ex.A4c_wf Ex.A4c_sq Ex.A4c_nodup Ex.A4c_spd ex_zrow ls hb
+    exact ⟨ls, rfl, B, h1, h2⟩
+
+/-! smoothed aggregation on the same input: `omega = 2/3`, `eps_strong = 0`; `P = [[2/3,0],[2/3,1/3],[1/3,2/3],[0,2/3]]` -/
+
+def exSA : SAParams ℚ := { epsSq := 0, blockSize := 1, minAggregate := 0, relax := 1, omegaScale := 2 / 3 }
+def exSAPol : Policy ℚ := smoothedAggregationPolicy (fun x => x) (fun _ => exSA) 1
+def exP : CRS ℚ := ⟨2, #[[(0, 2/3)], [(0, 2/3), (1, 1/3)], [(0, 1/3), (1, 2/3)], [(1, 2/3)]]⟩
+
+theorem ex_sa_build : (match build exPrm exSAPol Ex.smGS.model (skylineBuilt idPerm) Ex.A4c with
+    | .ok ls => ls.map (fun lv => (lv.rows, lv.P.map CRS.rows))
+    | .error _ => []) = [(4, some exP.rows), (2, none)] := by decide +kernel
+
+theorem ex_sa_build_ncols : (match build exPrm exSAPol Ex.smGS.model (skylineBuilt idPerm) Ex.A4c with
+    | .ok ls => ls.map (fun lv => (lv.rows, lv.P.map CRS.ncols))
+    | .error _ => []) = [(4, some 2), (2, none)] := by decide +kernel
+
+example : ∃ ls, build exPrm exSAPol Ex.smGS.model (skylineBuilt idPerm) Ex.A4c = .ok ls ∧
+    ∃ B : Matrix (Fin 4) (Fin 4) ℚ, IsSPD B ∧ Contr (Bridge.matOf Ex.A4c 4 4) (1 - B * Bridge.matOf Ex.A4c 4 4) := by
+  have hsh := ex_sa_build
+  have hsh2 := ex_sa_build_ncols
+  cases hb : build exPrm exSAPol Ex.smGS.model (skylineBuilt idPerm) Ex.A4c with
+  | error e => rw [hb] at hsh; cases hsh
+  | ok ls =>
+    rw [hb] at hsh hsh2
+    simp only at hsh hsh2
+    have hinj : ProlongationsInjective ls := by
+      intro lv hlv P hP n m hn hm w hw
+      have hmem : (lv.rows, lv.P.map CRS.rows) ∈ [(4, some exP.rows), ((2 : ℕ), (none : Option (Array (Row ℚ))))] := by
+        rw [← hsh]; exact List.mem_map.mpr ⟨lv, hlv, rfl⟩
+      have hmem2 : (lv.rows, lv.P.map CRS.ncols) ∈ [(4, some 2), ((2 : ℕ), (none : Option ℕ))] := by
+        rw [← hsh2]; exact List.mem_map.mpr ⟨lv, hlv, rfl⟩
+      rw [hP] at hmem hmem2
+      simp only [List.mem_cons, Prod.mk.injEq, Option.map_some, Option.some.injEq, List.mem_nil_iff, or_false,
+        reduceCtorEq, and_false] at hmem hmem2
+      have hrows : P.rows = exP.rows := hmem.2
+      have hc2 : P.ncols = 2 := hmem2.2
+      have hn4 : n = 4 := by rw [← hn]; unfold CRS.nrows; rw [hrows]; rfl
+      have hm2 : m = 2 := by rw [← hm, hc2]
+      subst hn4; subst hm2
+      have hget : ∀ i c, P.get i c = exP.get i c := fun i c => by unfold CRS.get CRS.row; rw [hrows]
+      have h0 := congrFun hw ⟨0, by omega⟩
+      have h3 := congrFun hw ⟨3, by omega⟩
+      have g00 : exP.get 0 0 = 2 / 3 := by decide +kernel
+      have g01 : exP.get 0 1 = 0 := by decide +kernel
+      have g30 : exP.get 3 0 = 0 := by decide +kernel
+      have g31 : exP.get 3 1 = 2 / 3 := by decide +kernel
+      simp only [mulVec, dotProduct, matOf_apply, hget, Pi.zero_apply, Fin.sum_univ_two, Fin.val_zero, Fin.val_one,
+        g00, g01, g30, g31] at h0 h3
+      funext a
+      fin_cases a
+      · show w 0 = 0; linarith
+      · show w 1 = 0; linarith
+    obtain ⟨B, h1, h2, -⟩ := smoothed_aggregation_built_apply_spd_contracting Ex.smGS trivial trivial _ (fun _ => exSA)
+      (fun _ => rfl) (fun _ => by decide) 1 exPrm rfl (by decide) (by decide) (by decide) idPerm idPerm_permOn
+      Ex.A4c Ex.A4c_wf Ex.A4c_sq Ex.A4c_nodup Ex.A4c_spd ls hb hinj (levelMatrices_true ls)
     exact ⟨ls, rfl, B, h1, h2⟩
 
 end Amgcl.C02d
